@@ -237,3 +237,21 @@ func tokenize(s string) []string {
 	}
 	return toks
 }
+
+// SolveWith runs the script on one named solver (cross-checks in the thorough tier).
+func SolveWith(solver, script, name string, timeout time.Duration) SolveResult {
+	file := filepath.Join(scratch(), sanitize(name)+"_x.smt2")
+	if len(file) > 200 {
+		file = file[:200] + "_x.smt2"
+	}
+	if err := os.WriteFile(file, []byte(script), 0o644); err != nil {
+		return SolveResult{Status: "error", Raw: err.Error()}
+	}
+	defer os.Remove(file)
+	for _, sp := range solvers {
+		if sp.name == solver {
+			return runOne(context.Background(), sp, file, timeout)
+		}
+	}
+	return SolveResult{Status: "error", Raw: "no such solver " + solver}
+}
